@@ -246,16 +246,23 @@ def replay_file(engine: EngineBase, path: str) -> int:
     return 0
 
 
-def confirm_fresh(engine: EngineBase, path: str, script: str) -> bool:
-    """Replays the file in a brand-new interpreter; True iff the recorded signature reproduces."""
+def confirm_fresh(engine: EngineBase, path: str, script: str, attempts: int = 1) -> int:
+    """Replays the file in brand-new interpreters; returns in how many of `attempts` replays the recorded
+    signature reproduced (a system under test that behaves nondeterministically may need several)."""
     env = dict(os.environ)
     env["PYTHONHASHSEED"] = "0"
-    try:
-        r = subprocess.run([sys.executable, script, engine.prop, "--replay", path], env=env,
-                           stdout=subprocess.PIPE, stderr=subprocess.STDOUT, timeout=600, text=True)
-    except subprocess.TimeoutExpired:
-        return False
-    return r.returncode == 1 and "VIOLATION property=" in r.stdout
+    hits = 0
+    for _ in range(attempts):
+        try:
+            r = subprocess.run([sys.executable, script, engine.prop, "--replay", path], env=env,
+                               stdout=subprocess.PIPE, stderr=subprocess.STDOUT, timeout=600, text=True)
+        except subprocess.TimeoutExpired:
+            continue
+        if r.returncode == 1 and "VIOLATION property=" in r.stdout:
+            hits += 1
+            if attempts == 1 or hits >= 2:
+                break
+    return hits
 
 
 def write_evidence(engine: EngineBase, tier, seed, agg: Aggregate | None, wall, n_viol, extra, notes):
@@ -389,19 +396,32 @@ def _main(engine_cls, script, holder):
         except Exception:
             traceback.print_exc()
             res = None
+        nondet = False
         if res is None:
-            harness_problems.append(f"violation {sig} of run {rec['index']} did not reproduce in-process")
-            continue
-        wl, tape, v = res
+            # the same workload did not fail again in-process: either the harness is at fault or the system under test is
+            # not deterministic (e.g. iteration over a set of objects).  Keep the *unminimised* history and try it a few
+            # times in fresh interpreters; only if it never fails again is this a harness problem.
+            nondet = True
+            wl, tape, v = rec["workload"], rec["tape"], Violation.from_json(rec["violation"])
+        else:
+            wl, tape, v = res
         key = engine.finding_key(wl, v)
         path = core.replay_path(engine.prop, core.stable_hash(sig, key)[:12])
         core.write_json(path, {"property": engine.prop, "signature": sig, "finding_key": key,
                                "workload": wl, "tape": tape, "seed": derive_seed(rec["seed"], "sched"),
                                "violation": v.to_json(), "found_by": {"run_index": rec["index"], "run_seed": rec["seed"],
                                                                      "base_seed": base_seed, "tier": args.tier}})
-        if not confirm_fresh(engine, path, script):
+        hits = confirm_fresh(engine, path, script, attempts=6 if nondet else 1)
+        if not hits and not nondet:
+            hits = confirm_fresh(engine, path, script, attempts=5)
+            nondet = bool(hits)
+        if not hits:
             harness_problems.append(f"violation {sig} (run {rec['index']}) did not reproduce in a fresh interpreter: {path}")
             continue
+        if nondet:
+            notes.append(f"{sig}: not reproduced by every replay - the system under test behaves nondeterministically on this history "
+                         f"(the replay file is not minimised)")
+            print(f"  note: {sig} reproduced in some replays only (nondeterministic behaviour of the code under test)")
         k = match_known(known, engine.prop, sig, key)
         if k is not None:
             known_hits.setdefault(k["id"], (k, path))
